@@ -7,8 +7,10 @@ SPEC = dict(
     corr=[('runcases', 6, 16, ['-n', '150', '-profile', 'all'], ('',))],
     oracles=[('c02-matrix', [['-seed', '{seed}']], [['-seed', '{seed}'] for _ in range(8)]),
              ('check-oracle',
-              [['-n', '100', '-seed', '{seed}', '-profile', 'all', '-shrinkms', '20'] for _ in range(4)],
-              [['-n', '500', '-seed', '{seed}', '-profile', 'all', '-shrinkms', '200'] for _ in range(16)])],
+              [['-n', '100', '-seed', '{seed}', '-profile', 'all', '-shrinkms', '20'] for _ in range(3)] +
+              [['-n', '100', '-seed', '{seed}', '-profile', 'cleanups', '-shrinkms', '20'] for _ in range(2)],
+              [['-n', '500', '-seed', '{seed}', '-profile', 'all', '-shrinkms', '200'] for _ in range(12)] +
+              [['-n', '400', '-seed', '{seed}', '-profile', 'cleanups', '-shrinkms', '100'] for _ in range(4)])],
     oracle_props=['C02'],
     partial=['non-fatal signals from other goroutines: C14 (lost-update theorems and the -race workload)',
              'the theorem covers every kind of signal incl. panics (C02_signal_fails_case) in the model; runtime errors (nil dereference ...) are panics raised by the Go runtime rather than by a call the model sees: they are covered by the matrix (nilderef variant) and the event-trace correspondence'],
